@@ -28,8 +28,9 @@ SCENARIOS_THOROUGH = SCENARIOS_QUICK + [
 ]
 
 
-def run_scenarios(run, scenarios, limit_per_scenario, family, prefix='c07'):
-    lab = Lab()
+def run_scenarios(run, scenarios, limit_per_scenario, family, prefix='c07', lab_kw=None):
+    lab_kw = lab_kw or {}
+    lab = Lab(**lab_kw)
     traces, descrs = [], []
     try:
         programs = {}
@@ -75,7 +76,7 @@ def run_scenarios(run, scenarios, limit_per_scenario, family, prefix='c07'):
                         lab.close()
                     except Exception:  # noqa: BLE001
                         pass
-                    lab = Lab()
+                    lab = Lab(**lab_kw)
                     rec = lab.execute(sc, s['sched'], pres[si], posts[si])
                 rec['predicted_snapshot'] = s['snapshot']
                 recs.append(rec)
@@ -100,7 +101,7 @@ def run_scenarios(run, scenarios, limit_per_scenario, family, prefix='c07'):
 
 
 def _strip(rec):
-    return {k: rec[k] for k in ('reads', 'phist', 'wire', 'errors', 'txids', 'txid0')}
+    return {k: rec[k] for k in ('reads', 'phist', 'wire', 'errors', 'txids', 'txid0', 'mver0', 'mver_end', 'nwv', 'ctxhist')}
 
 
 FAMILY = {'label_is_a_version_that_existed', 'snapshot_content', 'snapshot_selection', 'each_at_most_once',
